@@ -464,7 +464,7 @@ def group_push(ctx, cfg, fs):
     if not cands:
         return
     b = ctx.look(cands[0])
-    pushes = [c for x in [b] for c in x.calls() if c.is_(r'Vec::<.*>::(push|extend|append)$') and 'Comp' in c.full]
+    pushes = [c for x in [b] for c in x.calls() if c.is_(r'Vec::<.*>::(push|append)$', r'Extend<.*>>::extend(::<.*>)?$', r'Vec::<.*>::extend\w*$') and 'Comp' in c.full]
     bad = []
     for c in pushes:
         for (a_, s_) in b.transitive_control_deps(c.bb):
